@@ -155,19 +155,48 @@ impl OptSpec {
         }
     }
 
+    /// The same option set built in one of three ways (chosen by the width,
+    /// so that it is a pure function of the case): builder calls starting
+    /// from `Options::new(width)`, builder calls in the opposite order ending
+    /// with `.width(..)`, or direct assignment to the public fields. The
+    /// properties quantify over option *values*; how a caller arrives at them
+    /// must not matter.
     pub fn options(&self) -> Options<'_> {
-        Options::new(self.width)
-            .initial_indent(&self.initial_indent)
-            .subsequent_indent(&self.subsequent_indent)
-            .break_words(self.break_words)
-            .wrap_algorithm(self.algorithm())
-            .word_separator(self.separator())
-            .word_splitter(self.split.splitter())
-            .line_ending(if self.crlf {
-                LineEnding::CRLF
-            } else {
-                LineEnding::LF
-            })
+        let le = if self.crlf {
+            LineEnding::CRLF
+        } else {
+            LineEnding::LF
+        };
+        match self.width % 3 {
+            0 => Options::new(self.width)
+                .initial_indent(&self.initial_indent)
+                .subsequent_indent(&self.subsequent_indent)
+                .break_words(self.break_words)
+                .wrap_algorithm(self.algorithm())
+                .word_separator(self.separator())
+                .word_splitter(self.split.splitter())
+                .line_ending(le),
+            1 => Options::new(self.width.wrapping_add(7))
+                .line_ending(le)
+                .word_splitter(self.split.splitter())
+                .word_separator(self.separator())
+                .wrap_algorithm(self.algorithm())
+                .break_words(self.break_words)
+                .subsequent_indent(&self.subsequent_indent)
+                .initial_indent(&self.initial_indent)
+                .width(self.width),
+            _ => {
+                let mut o = Options::new(self.width);
+                o.line_ending = le;
+                o.initial_indent = &self.initial_indent;
+                o.subsequent_indent = &self.subsequent_indent;
+                o.break_words = self.break_words;
+                o.wrap_algorithm = self.algorithm();
+                o.word_separator = self.separator();
+                o.word_splitter = self.split.splitter();
+                o
+            }
+        }
     }
 }
 
